@@ -362,7 +362,8 @@ fn validate_fsm_state_coverage(fsm: &FsmImplementation, fsm_pipe: &FsmPipe, decl
     .with_compiler_loc()
     .with_tokens(fsm_pipe.start.tokens())
   })?;
-  if !state_names.contains(&start_state) {
+  let start_undeclared = declared_states.map_or(false, |declared| !declared.is_empty() && !declared.contains(&start_state));
+  if !state_names.contains(&start_state) || start_undeclared {
     return Err(MechError::new(
       FsmUndefinedStateError {
         fsm_name: fsm.name.to_string(),
